@@ -99,9 +99,11 @@ class GcodeHandlers(object):
         if (clockwise):
             angularTravel -= TWO_PI
 
-        # Make a circle if the angular travel is 0 and the target is current position
-        if (angularTravel == 0) and (x == endX) and (y == endY):
-            angularTravel = TWO_PI
+        # Make a circle if the target is the current position.  The computed angular travel cannot
+        # be relied on in that case: rounding may leave it slightly off 0 or off a full turn, which
+        # produced an arc without any intermediate point or a circle in the wrong direction
+        if (x == endX) and (y == endY):
+            angularTravel = -TWO_PI if (clockwise) else TWO_PI
 
         # Compute the number of segments to produce based on the length of the arc
         arcLength = abs(angularTravel) * radius
